@@ -175,8 +175,10 @@ def field_cases(rng, thorough):
                         opts = Options(invalid_values=pv)
                         r = result_of(lambda: S.__from__(x, options=opts), "map")
                         r["filtered"] = result_of(lambda: S(**filtered), "map")
-                        if not r["filtered"]["ok"]:
-                            continue        # the input misses a required field even without its offending keys: not a policy case
+                        if (n1 == "req" and "a" not in x) or (n2 == "req" and "b" not in x):
+                            continue        # the input itself misses a required field: not a policy case
+                        # (when the filtered run fails because a required field was provided with an offending value, the case stays:
+                        #  "a required field is never silently excluded" -- P_Fields demands an error then)
                         # expectation of the field case is stated on the provided keys only; defaults come from the filtered run
                         c = {"kind": "fields/%s" % ("dfs" if dfs else "ffs"), "shape": "fields", "indexable": True, "pk": "throw", "pv": pv,
                              "entries": ents, "anyexclude": True, "pols": ["throw", "throw", pv],
